@@ -48,6 +48,16 @@ func (w *W) Chance(stream string, permille int) bool {
 
 func (w *W) Addr(scheme string) string {
 	w.addrN++
+	if !w.Real {
+		// the real stream transports inside the simulation (verifsim/snet):
+		// well-formed addresses of theirs, resolved by the run's simulated network
+		switch scheme {
+		case "tcp", "tls+tcp":
+			return fmt.Sprintf("%s://127.0.0.1:%d", scheme, 10000+w.addrN)
+		case "ipc":
+			return fmt.Sprintf("ipc:///tmp/vsim-r%d-%d-%d.sock", w.Seed%100000, w.RunIdx, w.addrN)
+		}
+	}
 	return fmt.Sprintf("%s://r%d-%d-%d", scheme, w.Seed%100000, w.RunIdx, w.addrN)
 }
 
